@@ -15,8 +15,7 @@ pub fn send_body_flow(len: Option<u64>) -> Flow<(), SendBody> {
     }
     let f = cfg.build_prepare().expect("prepare");
     let mut f = f.proceed();
-    let mut buf = vec![0u8; 1024];
-    f.write(&mut buf).expect("head");
+    crate::driver::write_whole_head(&mut f).expect("head");
     match AnyFlow::SendRequest(f).proceed() {
         Ok(Some(AnyFlow::SendBody(f))) => f,
         _ => panic!("harness: expected SendBody"),
@@ -28,8 +27,7 @@ pub fn send_body_flow_despite(method: &str) -> Flow<(), SendBody> {
     let cfg = ReqCfg::new(method, "1.1", "http://a.test/p").despite(true);
     let f = cfg.build_prepare().expect("prepare");
     let mut f = f.proceed();
-    let mut buf = vec![0u8; 1024];
-    f.write(&mut buf).expect("head");
+    crate::driver::write_whole_head(&mut f).expect("head");
     match AnyFlow::SendRequest(f).proceed() {
         Ok(Some(AnyFlow::SendBody(f))) => f,
         _ => panic!("harness: expected SendBody"),
@@ -41,8 +39,7 @@ pub fn send_body_flow_te_and_len(n: u64) -> Flow<(), SendBody> {
     let cfg = ReqCfg::new("POST", "1.1", "http://a.test/p").orig("transfer-encoding", "chunked").orig("content-length", &n.to_string());
     let f = cfg.build_prepare().expect("prepare");
     let mut f = f.proceed();
-    let mut buf = vec![0u8; 1024];
-    f.write(&mut buf).expect("head");
+    crate::driver::write_whole_head(&mut f).expect("head");
     match AnyFlow::SendRequest(f).proceed() {
         Ok(Some(AnyFlow::SendBody(f))) => f,
         _ => panic!("harness: expected SendBody"),
@@ -54,8 +51,7 @@ pub fn send_body_flow_despite_len(method: &str, n: u64) -> Flow<(), SendBody> {
     let cfg = ReqCfg::new(method, "1.1", "http://a.test/p").orig("content-length", &n.to_string()).despite(true);
     let f = cfg.build_prepare().expect("prepare");
     let mut f = f.proceed();
-    let mut buf = vec![0u8; 1024];
-    f.write(&mut buf).expect("head");
+    crate::driver::write_whole_head(&mut f).expect("head");
     match AnyFlow::SendRequest(f).proceed() {
         Ok(Some(AnyFlow::SendBody(f))) => f,
         _ => panic!("harness: expected SendBody"),
@@ -69,8 +65,6 @@ pub fn send_body_call(len: Option<u64>) -> Call<WithBody, ()> {
         cfg = cfg.orig("content-length", &n.to_string());
     }
     let mut c = Call::with_body(cfg.build_request()).expect("call");
-    let mut buf = vec![0u8; 1024];
-    let (i, o) = c.write(b"xx", &mut buf).expect("head");
-    assert!(i == 0 && o > 0);
+    crate::driver::call_with_body_head(&mut c).expect("head");
     c
 }
